@@ -9,7 +9,9 @@
 package c13
 
 import (
+	"encoding/json"
 	"fmt"
+	"os"
 	"math/big"
 	"sort"
 	"strconv"
@@ -600,7 +602,11 @@ func ratOf(x sx.X) (*big.Rat, bool) {
 }
 
 // closeTo: |impl - exact| <= 2^-16 * max(1, |exact|)
-func closeTo(impl pr.Float, exact *big.Rat) bool {
+func closeTo(impl pr.Float, exact *big.Rat) bool { return closeScale(impl, exact, 1) }
+
+// closeScale: |impl - exact| <= 2^-16 * max(1, |exact|, scale); scale = magnitude of the operands
+// (positions are differences/sums of coordinates as large as the table's far edge)
+func closeScale(impl pr.Float, exact *big.Rat, scale float64) bool {
 	i := new(big.Rat)
 	if i.SetFloat64(float64(impl)) == nil {
 		return false
@@ -610,6 +616,9 @@ func closeTo(impl pr.Float, exact *big.Rat) bool {
 	m := new(big.Rat).Abs(exact)
 	if m.Cmp(big.NewRat(1, 1)) < 0 {
 		m = big.NewRat(1, 1)
+	}
+	if sc := new(big.Rat).SetFloat64(scale); sc != nil && m.Cmp(sc) < 0 {
+		m = sc
 	}
 	m.Mul(m, big.NewRat(1, 1<<16))
 	return d.Cmp(m) <= 0
@@ -624,6 +633,17 @@ type runner struct {
 	out   *res.Result
 	fonts text.FontConfiguration
 	crash map[string]string
+	kept  map[string][]res.Finding // per key: the smallest failing inputs seen
+}
+
+// keep remembers the 3 smallest inputs per finding key; they are added to the result at the end of the run.
+func (rn *runner) keep(f res.Finding) {
+	l := append(rn.kept[f.Key], f)
+	sort.SliceStable(l, func(i, j int) bool { return len(l[i].Input.(string)) < len(l[j].Input.(string)) })
+	if len(l) > 3 {
+		l = l[:3]
+	}
+	rn.kept[f.Key] = l
 }
 
 const judgeEps = "1/64"
@@ -726,10 +746,14 @@ func (rn *runner) placeCorr(t *tableSpec, o *obs, src string, seed uint64) error
 		return fmt.Errorf("model: %s -> %s", req, ans)
 	}
 	same := len(ans.Xs[1].Xs) == len(tb.ColumnPositions)
+	scale := float64(tb.ContentBoxX() + mf(tb.Width))
+	if scale < 0 {
+		scale = -scale
+	}
 	if same {
 		for i, x := range ans.Xs[1].Xs {
 			q, _ := ratOf(x)
-			if !closeTo(tb.ColumnPositions[i], q) {
+			if !closeScale(tb.ColumnPositions[i], q, scale) {
 				same = false
 			}
 		}
@@ -745,7 +769,7 @@ func (rn *runner) placeCorr(t *tableSpec, o *obs, src string, seed uint64) error
 				mc := mrow[j].Xs
 				x, _ := ratOf(mc[2])
 				w, _ := ratOf(mc[3])
-				if mc[1].S != strconv.Itoa(c.cs) || !closeTo(c.box.PositionX, x) || !closeTo(mf(c.box.Width), w) {
+				if mc[1].S != strconv.Itoa(c.cs) || !closeScale(c.box.PositionX, x, scale) || !closeScale(mf(c.box.Width), w, scale) {
 					same = false
 				}
 			}
@@ -942,28 +966,129 @@ func (rn *runner) one(t *tableSpec, seed uint64) error {
 		out.Hit("judge:ok")
 		return nil
 	}
-	if ans.K != sx.List || len(ans.Xs) < 2 || ans.Xs[0].S != "fail" {
+	if ans.K != sx.List || len(ans.Xs) != 3 || ans.Xs[0].S != "fail" {
 		return fmt.Errorf("model: %s -> %s", req, ans)
 	}
 	var clauses []string
-	for _, x := range ans.Xs[1:] {
+	for _, x := range ans.Xs[1].Xs {
 		clauses = append(clauses, x.S)
 	}
 	sort.Strings(clauses)
-	// classification for known-findings matching
-	key := mode + ":" + strings.Join(clauses, "+")
+	off := map[string][]int{}
+	for _, x := range ans.Xs[2].Xs {
+		for _, i := range x.Xs[1:] {
+			k, _ := strconv.Atoi(i.S)
+			off[x.Xs[0].S] = append(off[x.Xs[0].S], k)
+		}
+	}
 	negModel := false
 	for _, q := range modelCW {
 		if q.Sign() < 0 {
 			negModel = true
 		}
 	}
-	if negModel {
-		key += ":model-has-negative-column"
+	// classification of each failing clause by a recognised mechanism (for known-findings matching);
+	// anything not recognised stays "unexplained" and is reported
+	var parts []string
+	for _, cl := range clauses {
+		parts = append(parts, cl+"="+rn.explain(t, o, mode, cl, off, negModel))
 	}
-	out.Add(res.Finding{Kind: "judge", Op: "judge:grid", Input: src, Impl: o.dump(),
-		Reason: "GridConsistent fails: " + strings.Join(clauses, ", "), Key: key, Seed: seed})
+	for i, pt := range parts {
+		key := mode + ":" + pt
+		out.Hit("judge-fail:" + key)
+		rn.keep(res.Finding{Kind: "judge", Op: "judge:grid:" + clauses[i], Input: src, Impl: o.dump(),
+			Reason: "GridConsistent fails: " + strings.Join(clauses, ", ") + " [" + strings.Join(parts, ", ") + "]", Key: key, Seed: seed})
+	}
 	return nil
+}
+
+const eps = 1.0 / 64
+
+func inList(xs []int, i int) bool {
+	for _, x := range xs {
+		if x == i {
+			return true
+		}
+	}
+	return false
+}
+
+// explain names the mechanism behind a failing clause, or "unexplained".
+func (rn *runner) explain(t *tableSpec, o *obs, mode, clause string, off map[string][]int, negModel bool) string {
+	tb := o.table
+	rowTracks := [][2]float64{}
+	for _, g := range tb.Children {
+		for _, row := range g.Box().Children {
+			rowTracks = append(rowTracks, [2]float64{float64(row.Box().PositionY), float64(mf(row.Box().Height))})
+		}
+	}
+	// a cell spanning several rows whose own bottom lies above the top of its last row, that row being empty (height 0)
+	shortRowspan := func(i int) bool {
+		c := o.cells[i]
+		last := c.gy + c.rs - 1
+		if c.rs < 2 || last >= len(rowTracks) {
+			return false
+		}
+		bottom := float64(c.box.BorderBoxY() + c.box.BorderHeight())
+		return rowTracks[last][1] == 0 && bottom <= rowTracks[last][0]+eps
+	}
+	allShort := len(off["cell-on-rows"]) > 0
+	for _, i := range off["cell-on-rows"] {
+		if !shortRowspan(i) {
+			allShort = false
+		}
+	}
+	switch clause {
+	case "columns-fill":
+		if mode == "auto" && o.sx > 0 {
+			orig := map[int]bool{}
+			for _, c := range o.cells {
+				orig[c.gx] = true
+			}
+			empty := 0
+			var sum float64
+			for i, w := range tb.ColumnWidths {
+				sum += float64(w)
+				if !orig[i] {
+					empty++
+				}
+			}
+			n := len(tb.ColumnWidths)
+			d := sum + o.sx*float64(n+1) - float64(mf(tb.Width)) - o.sx*float64(empty)
+			if empty > 0 && d <= eps*float64(n+1) && d >= -eps*float64(n+1) {
+				return "empty-column-spacing"
+			}
+		}
+	case "cell-on-rows", "row-edges":
+		if allShort {
+			return "short-rowspan-cell"
+		}
+	case "overlap":
+		if negModel {
+			return "fixed-negative-column"
+		}
+	case "negative-size", "content-minimum":
+		if negModel {
+			return "fixed-negative-column"
+		}
+		idx := off[clause]
+		ok := len(idx) > 0
+		for _, i := range idx {
+			b := o.cells[i].box
+			if !(mf(b.Width) < 0 && b.BorderWidth() >= 0 && !inList(off["cell-on-columns"], i)) {
+				ok = false
+			}
+			if clause == "content-minimum" {
+				if cs := t.cells[o.cells[i].id]; cs != nil && cs.minw > 0 && mode == "auto" {
+					ok = false
+				}
+			}
+		}
+		if ok {
+			return "padding-exceeds-column"
+		}
+	}
+	return "unexplained"
 }
 
 // Run is the runner entry.
@@ -988,7 +1113,19 @@ func Run(tier string, seed uint64, modelPath, repo string, out *res.Result) erro
 		"border-collapse x direction x container width; each laid out by the real pipeline on one tall page; judged by GridConsistent (eps 1/64 px) " +
 		"and compared with the model (fixed layout, column/cell placement, row pass; tolerance 2^-16 relative); " +
 		"non-trivial = at least two cells were laid out; distinct by document text"
-	rn := &runner{m: m, out: out, fonts: fonts, crash: map[string]string{}}
+	rn := &runner{m: m, out: out, fonts: fonts, crash: map[string]string{}, kept: map[string][]res.Finding{}}
+	if doc := os.Getenv("VERIF_C13_HTML"); doc != "" {
+		// debugging aid: lay out one given document and print the observed geometry
+		pages, _, err := render.LayoutOnly(doc, fonts, render.Opts{})
+		if err != nil {
+			return err
+		}
+		tb := findTable(pages[0])
+		o := observe(&tableSpec{cells: map[string]*cellSpec{}}, tb)
+		b, _ := json.MarshalIndent(o.dump(), "", " ")
+		fmt.Fprintln(os.Stderr, string(b))
+		return nil
+	}
 	r := rng.New(seed)
 	for i := 0; i < n; i++ {
 		cr := r.Sub()
@@ -996,6 +1133,16 @@ func Run(tier string, seed uint64, modelPath, repo string, out *res.Result) erro
 		t := genTable(cr)
 		if err := rn.one(t, caseSeed); err != nil {
 			return err
+		}
+	}
+	var ks []string
+	for k := range rn.kept {
+		ks = append(ks, k)
+	}
+	sort.Strings(ks)
+	for _, k := range ks {
+		for _, f := range rn.kept[k] {
+			out.Add(f)
 		}
 	}
 	var sites []string
